@@ -34,6 +34,49 @@ def double_failures(rng, n):
     return out
 
 
+def base_exception_children(ctx):
+    """a child that fails with a BaseException which is neither an Exception nor one of the promoted types (a user-defined
+    `class Abort(BaseException)`): the text says the block fails with Concurrent carrying that failure.  Known finding
+    D28: the debugging assertion of Concurrent[...] rejects it - AssertionError that nobody raised (Concurrent[Abort]
+    under python -O)."""
+    import usim
+
+    class Abort(BaseException):
+        pass
+    for d, nsib in ((1, 0), (0, 1), (2, 2)):
+        err = Abort('stop')
+        got = []
+
+        async def child():
+            if d:
+                await (usim.time + d)
+            raise err
+
+        async def sibling():
+            await (usim.time + 9)
+
+        async def main():
+            try:
+                async with usim.Scope() as s:
+                    s.do(child())
+                    for _ in range(nsib):
+                        s.do(sibling())
+            except BaseException as e:   # noqa
+                got.append((e, usim.time.now))
+        case = {'base_exception_child': dict(after=d, siblings=nsib)}
+        usim.run(main())
+        ctx.count(case, nontrivial=True)
+        ctx.bump('family:base-exception-children')
+        e, t = got[0] if got else (None, None)
+        if isinstance(e, usim.Concurrent) and len(e.children) == 1 and e.children[0] is err and t == d:
+            continue
+        if isinstance(e, AssertionError) and 'may only be specialised by Exception subclasses' in str(e):
+            ctx.fail(case, 'a child failed with %r (a BaseException that is no Exception); the block raised %r instead of a '
+                           'Concurrent carrying it' % (err, e), finding='D28', family='base-exception-children')
+        else:
+            ctx.fail(case, 'a child failed with %r at %r; the block raised %r at %r' % (err, d, e, t), family='base-exception-children')
+
+
 def _leaked_signal(sc, trace, probes, info):
     """of C03's monitor only: an internal signal leaving run() (a scope ending twice shows up like this)"""
     from harness import monitors
@@ -43,6 +86,7 @@ def _leaked_signal(sc, trace, probes, info):
 def run(ctx):
     from harness import monitors
     monitors.MONITORS['C05s'] = _leaked_signal
+    base_exception_children(ctx)
     machine_prop.run(ctx, FAMILIES, MONITORS + ['C05s'], extra_scenarios=double_failures(ctx.rng, ctx.n(40, 800)))
     # scopes around borrowed resources (acquiring and releasing suspend, also while a scope is being interrupted):
     # "promptly" for until-blocks is C07's rule (block left at the time its notification fires)
